@@ -371,12 +371,12 @@ pub mod subscriber {
 //@ # effective ack deadline max(seconds, 10) and the request's push configuration; the answer is the resource of
 //@ # that subscription with the configuration it stores
 //@ ensures[C10] (match r { Ok(resp) => exists|info: SubscriptionInfo, t: Arc<crate::topics::Topic>, s: Arc<crate::subscriptions::Subscription>, stored: SubscriptionInfo| #![trigger self.subscription_manager.created(info, t), stored_info(*s, stored)] info_for(request.m, info) && parsed_topic(request.m.topic@).is_some() && self.topic_manager.lookup(parsed_topic(request.m.topic@).unwrap()) == Ok::<Arc<crate::topics::Topic>, GetTopicError>(t) && self.subscription_manager.created(info, t) == Ok::<Arc<crate::subscriptions::Subscription>, CreateSubscriptionError>(s) && stored_info(*s, stored) && resp.m.name@ == display_sub(s.name) && (match stored.push_config { None => resp.m.push_config.is_none(), Some(c) => resp.m.push_config.is_some() && resource_push_ok(c, resp.m.push_config.unwrap()) }), Err(_) => true })
-//@ closure 1 ret st: Status
-//@ closure 1 ensures (match $1 { GetTopicError::DoesNotExist => st.code == Code::NotFound, GetTopicError::Closed => st.code == Code::FailedPrecondition })
-//@ closure 2 ret st: Status
-//@ closure 2 ensures (match $1 { CreateSubscriptionError::AlreadyExists => st.code == Code::AlreadyExists, CreateSubscriptionError::MustBeInSameProjectAsTopic => st.code == Code::InvalidArgument, CreateSubscriptionError::Closed => st.code == Code::FailedPrecondition })
-//@ closure 3 ret st: Status
-//@ closure 3 ensures st.code == Code::FailedPrecondition
+//@ closure /GetTopicError::DoesNotExist/ ret st: Status
+//@ closure /GetTopicError::DoesNotExist/ ensures (match $1 { GetTopicError::DoesNotExist => st.code == Code::NotFound, GetTopicError::Closed => st.code == Code::FailedPrecondition })
+//@ closure /CreateSubscriptionError::AlreadyExists/ ret st: Status
+//@ closure /CreateSubscriptionError::AlreadyExists/ ensures (match $1 { CreateSubscriptionError::AlreadyExists => st.code == Code::AlreadyExists, CreateSubscriptionError::MustBeInSameProjectAsTopic => st.code == Code::InvalidArgument, CreateSubscriptionError::Closed => st.code == Code::FailedPrecondition })
+//@ closure /GetInfoError::Closed/ ret st: Status
+//@ closure /GetInfoError::Closed/ ensures st.code == Code::FailedPrecondition
 //@end
 //@fn src/api/subscriber.rs SubscriberService::get_subscription tags=C10 keep-paths=1
 //@ ret r
@@ -385,10 +385,10 @@ pub mod subscriber {
 //@ ensures[C10] (match parsed_sub(request.m.subscription@) { Some(n) => (self.subscription_manager.lookup(n) matches Err(GetSubscriptionError::DoesNotExist)) ==> err_code(r) == Some(Code::NotFound), None => true })
 //@ # C10: the answer is the resource of the subscription the name denotes: its name and the configuration it stores
 //@ ensures[C10] (match r { Ok(resp) => exists|s: Arc<crate::subscriptions::Subscription>, info: SubscriptionInfo| #[trigger] stored_info(*s, info) && self.subscription_manager.lookup(parsed_sub(request.m.subscription@).unwrap()) == Ok::<Arc<crate::subscriptions::Subscription>, GetSubscriptionError>(s) && resp.m.name@ == display_sub(s.name) && (dur_ns(info.ack_deadline) / 1_000_000_000 <= i32::MAX ==> resp.m.ack_deadline_seconds == dur_ns(info.ack_deadline) / 1_000_000_000) && (match info.push_config { None => resp.m.push_config.is_none(), Some(c) => resp.m.push_config.is_some() && resource_push_ok(c, resp.m.push_config.unwrap()) }), Err(_) => true })
-//@ closure 1 ret st: Status
-//@ closure 1 ensures (match $1 { GetSubscriptionError::DoesNotExist => st.code == Code::NotFound, GetSubscriptionError::Closed => st.code == Code::FailedPrecondition })
-//@ closure 2 ret st: Status
-//@ closure 2 ensures st.code == Code::FailedPrecondition
+//@ closure /GetSubscriptionError::DoesNotExist/ ret st: Status
+//@ closure /GetSubscriptionError::DoesNotExist/ ensures (match $1 { GetSubscriptionError::DoesNotExist => st.code == Code::NotFound, GetSubscriptionError::Closed => st.code == Code::FailedPrecondition })
+//@ closure /GetInfoError::Closed/ ret st: Status
+//@ closure /GetInfoError::Closed/ ensures st.code == Code::FailedPrecondition
 //@end
 
 //@fn src/api/subscriber.rs SubscriberService::delete_subscription tags=C10 keep-paths=1
@@ -397,8 +397,8 @@ pub mod subscriber {
 //@ ensures[C10] (match parsed_sub(request.m.subscription@) { Some(n) => (self.subscription_manager.lookup(n) matches Err(GetSubscriptionError::DoesNotExist)) ==> err_code(r) == Some(Code::NotFound), None => true })
 //@ # C11: OK means the subscription the name denotes was asked to delete itself and answered OK
 //@ ensures[C11] r.is_ok() ==> exists|s: Arc<crate::subscriptions::Subscription>| #[trigger] sub_deleted(*s) && self.subscription_manager.lookup(parsed_sub(request.m.subscription@).unwrap()) == Ok::<Arc<crate::subscriptions::Subscription>, GetSubscriptionError>(s)
-//@ closure 1 ret st: Status
-//@ closure 1 ensures st.code == Code::FailedPrecondition
+//@ closure /DeleteError::Closed/ ret st: Status
+//@ closure /DeleteError::Closed/ ensures st.code == Code::FailedPrecondition
 //@end
     }
 }
@@ -449,8 +449,8 @@ pub mod publisher {
 //@ ensures[C17] parsed_topic(request.m.name@).is_none() ==> err_code(r) == Some(Code::InvalidArgument)
 //@ ensures[C10] (match parsed_topic(request.m.name@) { Some(n) => (self.topic_manager.created(n) matches Err(CreateTopicError::AlreadyExists)) ==> err_code(r) == Some(Code::AlreadyExists), None => true })
 //@ ensures[C10] (match r { Ok(resp) => parsed_topic(request.m.name@).is_some() && self.topic_manager.created(parsed_topic(request.m.name@).unwrap()).is_ok() && resp.m.name@ == display_topic(parsed_topic(request.m.name@).unwrap()), Err(_) => true })
-//@ closure 1 ret st: Status
-//@ closure 1 ensures (match $1 { CreateTopicError::AlreadyExists => st.code == Code::AlreadyExists, CreateTopicError::Closed => st.code == Code::FailedPrecondition })
+//@ closure /CreateTopicError::AlreadyExists/ ret st: Status
+//@ closure /CreateTopicError::AlreadyExists/ ensures (match $1 { CreateTopicError::AlreadyExists => st.code == Code::AlreadyExists, CreateTopicError::Closed => st.code == Code::FailedPrecondition })
 //@end
 //@fn src/api/publisher.rs PublisherService::get_topic tags=C10 keep-paths=1
 //@ ret r
@@ -466,8 +466,8 @@ pub mod publisher {
 //@ ensures[C10] (match parsed_topic(request.m.topic@) { Some(n) => (self.topic_manager.lookup(n) matches Err(GetTopicError::DoesNotExist)) ==> err_code(r) == Some(Code::NotFound), None => true })
 //@ # C11: OK means the topic the name denotes was asked to delete itself and answered OK
 //@ ensures[C11] r.is_ok() ==> exists|t: Arc<crate::topics::Topic>| #[trigger] topic_deleted(*t) && self.topic_manager.lookup(parsed_topic(request.m.topic@).unwrap()) == Ok::<Arc<crate::topics::Topic>, GetTopicError>(t)
-//@ closure 1 ret st: Status
-//@ closure 1 ensures st.code == Code::FailedPrecondition
+//@ closure /DeleteError::Closed/ ret st: Status
+//@ closure /DeleteError::Closed/ ensures st.code == Code::FailedPrecondition
 //@end
 //@fn src/api/publisher.rs PublisherService::get_topic_internal tags=C10 keep-paths=1
 //@ ret r
